@@ -100,6 +100,13 @@ func encOpts(st *plan.Step) (opts []gojson.EncodeOptionFunc, dbg *SimWriter, dot
 			dbg = NewSimWriter(nil)
 			dot = NewSimWriter(nil)
 			opts = append(opts, gojson.Debug(), gojson.DebugWith(dbg), gojson.DebugDOT(dot))
+		case "dotonly":
+			// a DOT writer without Debug(): nothing consumes it in this call
+			dot = NewSimWriter(nil)
+			opts = append(opts, gojson.DebugDOT(dot))
+		case "dbgonly":
+			dbg = NewSimWriter(nil)
+			opts = append(opts, gojson.DebugWith(dbg))
 		case "color_default":
 			opts = append(opts, gojson.Colorize(gojson.DefaultColorScheme))
 		case "color_empty":
@@ -343,12 +350,45 @@ func (ss *sessState) runStep(i int) {
 		endStep()
 	}
 	ss.obs = append(ss.obs, obs)
+	if !verifsim.Active() {
+		ss.checkPastWriters(i, st)
+	}
 	if st.Bomb != nil || len(st.Doc) > 1<<20 || (st.Reader != nil && (st.Reader.Bomb != nil || len(st.Reader.Data) > 1<<20)) {
 		// the collector is off between plan events; after a step on a huge
 		// document the garbage of that step is released (deterministically)
 		runtime.GC()
 	}
 	ss.checkKept(i)
+}
+
+// Writers handed to a call with a debug option belong to that call: once it
+// has returned, nothing may write to them or close them. (Harness state shared
+// by all sessions of a plan: single-goroutine plans only.)
+type pastWriter struct {
+	w      *SimWriter
+	n      int
+	closed bool
+	where  string
+}
+
+var pastWriters []pastWriter
+
+func notePastWriter(w *SimWriter, where string) {
+	if w != nil && !verifsim.Active() {
+		pastWriters = append(pastWriters, pastWriter{w: w, n: len(w.Buf), closed: w.Closed, where: where})
+	}
+}
+
+func (ss *sessState) checkPastWriters(i int, st *plan.Step) {
+	for k := range pastWriters {
+		pw := &pastWriters[k]
+		if len(pw.w.Buf) != pw.n || pw.w.Closed != pw.closed {
+			ss.viols = append(ss.viols, plan.Violation{Oracle: "aliasing", Where: fmt.Sprintf("session %s step %d (%s)", ss.s.ID, i, st.Op), Sig: "aliasing|late_write|" + st.Op,
+				Detail: fmt.Sprintf("the debug writer handed to %s received output after that call had returned: %d -> %d bytes, closed %v -> %v, during this step (%s)",
+					pw.where, pw.n, len(pw.w.Buf), pw.closed, pw.w.Closed, clipS(string(pw.w.Buf[pw.n:]), 120))})
+			pw.n, pw.closed = len(pw.w.Buf), pw.w.Closed
+		}
+	}
 }
 
 func (ss *sessState) doStep(i int, st *plan.Step) (obs string) {
@@ -420,6 +460,8 @@ func (ss *sessState) doStep(i int, st *plan.Step) (obs string) {
 		if dot != nil {
 			o += fmt.Sprintf(" dot=%d closed=%v", len(dot.Buf), dot.Closed)
 		}
+		notePastWriter(dbg, fmt.Sprintf("session %s step %d (%s)", ss.s.ID, i, st.Op))
+		notePastWriter(dot, fmt.Sprintf("session %s step %d (%s)", ss.s.ID, i, st.Op))
 		if err == nil {
 			ss.keepBytes(i, "marshal result", b)
 			if st.Probe == "mutate_output" {
@@ -448,7 +490,11 @@ func (ss *sessState) doStep(i int, st *plan.Step) (obs string) {
 		}
 		e, w := eh.e, eh.w
 		v := valueArg(st)
-		opts, dbg, _ := encOpts(st)
+		opts, dbg, edot := encOpts(st)
+		defer func() {
+			notePastWriter(dbg, fmt.Sprintf("session %s step %d (%s)", ss.s.ID, i, st.Op))
+			notePastWriter(edot, fmt.Sprintf("session %s step %d (%s)", ss.s.ID, i, st.Op))
+		}()
 		before := len(w.Buf)
 		var err error
 		if st.Op == "enc_encode_ctx" {
